@@ -104,10 +104,24 @@ def main(argv):
         class _Stuck(BaseException):
             pass
 
+        # ... and a driver that HAS ALREADY FOUND violations and runs far beyond the usual time of a driver is stopped
+        # there: what it found is reported, nothing is claimed about the rest (a broken tree can make a driver crawl)
+        soft = int(os.environ.get("VERIF_DRIVER_SOFT_LIMIT_S", "420" if tier == "quick" else "5400"))
+        state = {"t0": time.time(), "early": False}
+
         def _alarm(signum, frame):
+            from bounded import drv as _drv
+            cur = getattr(_drv.Recorder, "current", None)
+            elapsed = time.time() - state["t0"]
+            if elapsed < limit - 1:
+                if cur is not None and cur.failures:
+                    state["early"] = True
+                    raise _Stuck()
+                signal.alarm(max(1, int(min(60, limit - elapsed))))
+                return
             raise _Stuck()
         signal.signal(signal.SIGALRM, _alarm)
-        signal.alarm(limit)
+        signal.alarm(min(soft, limit))
         try:
             res = mod.run(tier, seed)
         except _Stuck:
@@ -117,7 +131,10 @@ def main(argv):
                      "inputs": " | ".join(x.strip() for x in frames[-8:])[:2000]}
             from bounded import drv
             cur = getattr(drv.Recorder, "current", None)
-            if cur is not None:
+            if cur is not None and state["early"]:
+                res = cur.result("stopped after %d s with violations already found (the rest of the driver was not run)"
+                                 % int(time.time() - state["t0"]))
+            elif cur is not None:
                 res = cur.result("stopped after %d s" % limit)
                 res["failures"] = list(res.get("failures") or []) + [stuck]
             else:
